@@ -1,7 +1,56 @@
-(* C12 placeholder *)
-From Coq Require Import ZArith List.
-Require Import V.Analysis.CfgModel.
+(* C12 - every instruction inside a try range carries that range's handlers.  Property theorems only.
+   block_exception excs b is get_exception(b.start, b.end - 1): the first entry of the try table overlapping the block.
+   wf_excs code excs: every try start is an instruction offset and the ranges are pairwise disjoint (or the same entry). *)
+From Coq Require Import ZArith List Lia.
+Require Import V.Analysis.CfgModel V.Analysis.CfgProofs.
 Import ListNotations.
 Open Scope Z_scope.
-Example C12_nonvacuous : length (blocks_of (with_off 0 [{| ilen := 2; ikind := KIf 2 |}; {| ilen := 2; ikind := KPlain |}; {| ilen := 2; ikind := KExit |}]) []) = 3%nat.
-Proof. vm_compute. reflexivity. Qed.
+
+(* a block reports exactly the range that covers its first instruction (at most one does) *)
+Theorem C12_block_reports_the_covering_range : forall insl excs b e,
+  let code := with_off 0 insl in
+  sized insl -> wf_excs code excs -> In b (blocks_of code excs) ->
+  (block_exception excs b = Some e <-> In e excs /\ e_start e <= b_start b <= e_end e).
+Proof. exact block_exception_exact. Qed.
+Print Assumptions C12_block_reports_the_covering_range.
+
+(* so a block holding any instruction covered by a range reports that range, with that range's handlers ... *)
+Theorem C12_covered_instruction_is_reported : forall insl excs b q e,
+  let code := with_off 0 insl in
+  sized insl -> wf_excs code excs -> In b (blocks_of code excs) -> In q (b_ins b) -> In e excs ->
+  e_start e <= fst q <= e_end e -> block_exception excs b = Some e.
+Proof. exact covered_instruction_reported. Qed.
+Print Assumptions C12_covered_instruction_is_reported.
+
+(* ... and a reported range always covers an instruction of the block: its first one *)
+Theorem C12_reported_range_covers_the_block_start : forall insl excs b e,
+  let code := with_off 0 insl in
+  sized insl -> wf_excs code excs -> In b (blocks_of code excs) -> block_exception excs b = Some e ->
+  exists q, hd_error (b_ins b) = Some q /\ e_start e <= fst q <= e_end e.
+Proof. exact reported_range_covers. Qed.
+Print Assumptions C12_reported_range_covers_the_block_start.
+
+(* a try range must not straddle a block: its start is never strictly inside one *)
+Theorem C12_try_start_is_a_block_start : forall insl excs e b,
+  let code := with_off 0 insl in
+  sized insl -> In e excs -> In (e_start e) (map fst code) -> In b (blocks_of code excs) ->
+  b_start b <= e_start e < b_end b -> e_start e = b_start b.
+Proof. exact try_start_not_inside. Qed.
+Print Assumptions C12_try_start_is_a_block_start.
+
+(* two adjacent ranges in one straight-line run, a third sharing the first one's handler *)
+Example C12_nonvacuous :
+  let insl := [{| ilen := 2; ikind := KPlain |}; {| ilen := 4; ikind := KPlain |}; {| ilen := 2; ikind := KPlain |};
+               {| ilen := 2; ikind := KPlain |}; {| ilen := 6; ikind := KPlain |}; {| ilen := 2; ikind := KExit |}] in
+  let excs := [{| e_start := 0; e_end := 5; e_handlers := [(-1, 16)] |}; {| e_start := 10; e_end := 15; e_handlers := [(-1, 16)] |};
+               {| e_start := 6; e_end := 9; e_handlers := [(3, 16)] |}] in
+  let code := with_off 0 insl in
+  wf_excs code excs /\ sized insl /\
+  map (fun b => (b_start b, option_map e_start (block_exception excs b))) (blocks_of code excs)
+  = [(0, Some 0); (6, Some 6); (10, Some 10); (16, None)].
+Proof.
+  split; [|split; [repeat constructor; simpl; lia|vm_compute; reflexivity]].
+  split.
+  - intros e [<-|[<-|[<-|[]]]]; vm_compute; tauto.
+  - intros e1 e2 [<-|[<-|[<-|[]]]] [<-|[<-|[<-|[]]]]; cbn; lia || (left; reflexivity).
+Qed.
